@@ -319,6 +319,25 @@ func runC18(c *Collector, r *Rng, thorough bool) {
 				},
 			}})
 		}
+		// buckets holding parameters whose value is nil (a lookup that found nothing, a placeholder): reading and
+		// encoding leave them where they are
+		{
+			nm := &cose.Sign1Message{Headers: cose.Headers{Protected: cose.ProtectedHeader{cose.HeaderLabelAlgorithm: k.alg, int64(-70070): nil, "note": nil}, Unprotected: cose.UnprotectedHeader{int64(-70071): nil, int64(-70072): []byte(nil), "u": nil}}, Payload: []byte("payload"), Signature: []byte{1, 2, 3}}
+			ncs := &cose.Countersignature{Headers: cose.Headers{Protected: cose.ProtectedHeader{cose.HeaderLabelAlgorithm: k.alg, int64(-70073): nil}, Unprotected: cose.UnprotectedHeader{int64(-70074): nil}}, Signature: []byte{1, 2, 3}}
+			nsm := &cose.SignMessage{Headers: cose.Headers{Protected: cose.ProtectedHeader{int64(-70075): nil}, Unprotected: cose.UnprotectedHeader{int64(-70076): nil}}, Payload: []byte("p"), Signatures: []*cose.Signature{{Headers: cose.Headers{Protected: cose.ProtectedHeader{cose.HeaderLabelAlgorithm: k.alg, int64(-70077): nil}}, Signature: []byte{1}}}}
+			vals = append(vals, shared{"nil-valued-parameters/" + k.alg.String(), func() string {
+				return oSign1(nm) + oSigv((*cose.Signature)(ncs)) + oSignMsg(nsm) + fmt.Sprint(len(nm.Headers.Protected), len(nm.Headers.Unprotected), len(ncs.Headers.Protected), len(ncs.Headers.Unprotected), len(nsm.Headers.Protected), len(nsm.Headers.Unprotected), len(nsm.Signatures[0].Headers.Protected))
+			}, []func() string{
+				func() string { return res(nil, nm.Verify(ext, vf)) },
+				func() string { return res(nm.MarshalCBOR()) },
+				func() string { return res(nil, ncs.Verify(vf, nm, ext)) },
+				func() string { return res(ncs.MarshalCBOR()) },
+				func() string { return res(nil, nsm.Verify(ext, vf)) },
+				func() string { return res(nsm.MarshalCBOR()) },
+				func() string { return res(nm.Headers.MarshalProtected()) },
+				func() string { return res(nm.Headers.MarshalUnprotected()) },
+			}})
+		}
 		// a key as it comes off the wire: key_ops with a repeated entry ([2, "verify", 1] decodes to verify, verify, sign),
 		// kid, base IV and an extra parameter
 		if ck, err := cose.NewKeyFromPrivate(k.priv); err == nil {
